@@ -506,6 +506,36 @@ def cyclic(desc):
     return dfs("__root__")
 
 
+def ranks(desc):
+    """rank of every node type along the relations that can create a child (None: cyclic somewhere)"""
+    rels = dict((p, cs) for p, cs in desc["relations"])
+    edges = {}
+    for p, cs in desc["relations"]:
+        for c, spec in cs:
+            m = merged(desc, c, spec)
+            if c in rels and (":count" not in m or not (not is_rnd(m[":count"]) and cnt(py_value(m[":count"])) == 0)):
+                edges.setdefault(p, []).append(c)
+    rk, busy = {}, set()
+
+    def go(u):
+        if u in rk:
+            return rk[u]
+        if u in busy:
+            raise RecursionError
+        busy.add(u)
+        r = 1 + max((go(v) for v in edges.get(u, [])), default=-1)
+        busy.discard(u)
+        rk[u] = r
+        return r
+
+    try:
+        for p in rels:
+            go(p)
+    except RecursionError:
+        return None
+    return rk
+
+
 def tree_stats(root):
     n = 0
     depth = 0
@@ -606,13 +636,15 @@ class Prop:
                 tree = cls.build_random_tree(sd)
             except Exception as e:  # noqa: BLE001
                 err = e
-        coq_in = f"(CBuild {H.coq_bool(desc['typed'])} {coq_def(desc)} {fuel} {coq_stream(desc['stream'])})"
+        rk = ranks(desc)
+        coq_rk = H.coq_list(f"({H.coq_text(t)}, {n})" for t, n in (rk or {}).items())
+        coq_in = f"(CBuild {H.coq_bool(desc['typed'])} {coq_def(desc)} {fuel} {coq_rk} {coq_stream(desc['stream'])})"
         if err is not None:
             return Case(desc=desc, coq_input=coq_in, impl_obs=[-2, H.err_class(err)],
                         oracle_fail=f"crash: {type(err).__name__}: {err}", nontrivial=False, key=H.digest(desc),
                         stats=dict(error=type(err).__name__))
         obs = [type(tree) is TypedTree, H.sx_opt(tree.name if desc.get("name") is not None else None),
-               [obs_node(c) for c in (tree._root._children or [])]]
+               [obs_node(c) for c in (tree._root._children or [])], rk is not None]
         fail = oracle(desc, tree)
         if fail is None and tree._forward_attrs is not True:
             fail = "class: forward_attrs not set"
@@ -621,7 +653,8 @@ class Prop:
         return Case(desc=desc, coq_input=coq_in, impl_obs=obs, oracle_fail=fail,
                     nontrivial=n >= 2 and st.pos >= 1, key=H.digest(desc),
                     stats=dict(nodes=min(n, 60) // 5 * 5, depth=depth, draws=min(st.pos, 100) // 10 * 10,
-                               stream_exhausted=st.pos > len(st.draws), calls="+".join(kinds), typed=desc["typed"]))
+                               stream_exhausted=st.pos > len(st.draws), calls="+".join(kinds), typed=desc["typed"],
+                               in_theorem_domain=rk is not None))
 
     def run_cyclic(self, desc, cls, st):
         """D39: the code recurses without end; observed as RecursionError under a lowered limit."""
